@@ -762,6 +762,10 @@ def generate_scaling_for_elementwise(emit: CommandStreamEmitter, npu_op: NpuElem
         input_scale = npu_op.ifm.quantization.scale_f32 if npu_op.ifm.quantization else None
         input2_scale = npu_op.ifm2.quantization.scale_f32 if npu_op.ifm2.quantization else None
         output_scale = npu_op.ofm.quantization.scale_f32 if npu_op.ofm.quantization else None
+        # Evaluate the scale arithmetic in double precision whatever type the scales are stored in
+        input_scale, input2_scale, output_scale = (
+            None if scale is None else float(scale) for scale in (input_scale, input2_scale, output_scale)
+        )
 
         if npu_op.activation is not None and npu_op.activation.op_type in (
             NpuActivationOp.SIGMOID,
